@@ -438,7 +438,10 @@ class Mesh:
 
             marked_space.sort(key=lambda elem: elem.level_space)
             for elem in marked_space:
-                assert not elem.children
+                # The conformity closure of an earlier refinement in this
+                # sweep may have refined this element already; its children
+                # are classified again in the next sweep.
+                if elem.children: continue
                 self.refine_space(elem)
         print('Grading added {} elements'.format(len(self.leaf_elements) - N))
 
